@@ -35,6 +35,19 @@ fn batch(seed: u64, n: usize) -> Vec<String> {
     out.push("stel s = \"abc\"; s[0] = \"x\"; s".into());
     out.push("functie g() { \"lit\" } stel t = g(); t[0] = \"L\"; [t, g()]".into());
     out.push("print(\"{} {}\", 1.5, [1, \"a\"]); [0.1 + 0.2, 7 / 2, -7 % 3]".into());
+    // the directed boundary corpus of C05 (short programs only): range ends, conversions, limits are where build profiles differ
+    for (_, text) in crate::props::c05::directed_corpus() {
+        if text.len() < 400 && !out.contains(&text) {
+            out.push(text);
+        }
+    }
+    for extra in [
+        "8070450532247928832", "9223372036854775807", "int(\"9000000000000000000\")", "int(\"-9223372036854775808\")", "int(9.0 * 1000000000000000000.0)",
+        "int(-9.3 * 1000000000000000000.0)", "1152921504606846975 * 8", "functie f(x) { x * 1152921504606846975 } f(8)", "-1152921504606846975 - 2", "1152921504606846975 - (-1152921504606846975)",
+        "stel t = type(1); t[0] = \"p\"; [t, type(2)]", "stel a = 1; { stel a = 2; } a", "als ja { stel geheim = 42 } geheim",
+    ] {
+        out.push(extra.into());
+    }
     out
 }
 
